@@ -463,7 +463,7 @@ pub fn c11_fwdtag_dual64_u2() {
 #[cfg_attr(kani, kani::stub(f64::atan2, tag::atan2))]
 pub fn c11_fwdtag_dual64_bina() {
     let x: Dual64 = Dual64::new(0.5, 1.5);
-    let y: Dual64 = <Dual64 as num_traits::One>::one() + <Dual64 as num_traits::One>::one();
+    let y: Dual64 = x.clone() + <Dual64 as num_traits::One>::one() + <Dual64 as num_traits::One>::one();   // base / second operand with non-zero derivative parts
     let (s1, c1) = <Dual64 as ComplexField>::sin_cos(x.clone());
     let (s2, c2) = DualNum::sin_cos(&x);
     assert!(same_dual(&s1, &s2) && same_dual(&c1, &c2));
@@ -498,7 +498,7 @@ pub fn c11_fwdtag_dual64_bina() {
 #[cfg_attr(kani, kani::stub(f64::atan2, tag::atan2))]
 pub fn c11_fwdtag_dual64_binb_slow() {
     let x: Dual64 = Dual64::new(0.5, 1.5);
-    let y: Dual64 = <Dual64 as num_traits::One>::one() + <Dual64 as num_traits::One>::one();
+    let y: Dual64 = x.clone() + <Dual64 as num_traits::One>::one() + <Dual64 as num_traits::One>::one();   // base / second operand with non-zero derivative parts
     assert!(same_dual(&<Dual64 as ComplexField>::powf(x.clone(), y.clone()), &DualNum::powd(&x, y.clone())));
     assert!(same_dual(&<Dual64 as ComplexField>::powc(x.clone(), y.clone()), &DualNum::powd(&x, y.clone())));
     assert!(same_dual(&<Dual64 as ComplexField>::hypot(x.clone(), y.clone()),
@@ -631,7 +631,7 @@ pub fn c11_fwdtag_dual2_64_u2() {
 #[cfg_attr(kani, kani::stub(f64::atan2, tag::atan2))]
 pub fn c11_fwdtag_dual2_64_bina() {
     let x: Dual2_64 = Dual2_64::new(0.5, 1.5, -0.25);
-    let y: Dual2_64 = <Dual2_64 as num_traits::One>::one() + <Dual2_64 as num_traits::One>::one();
+    let y: Dual2_64 = x.clone() + <Dual2_64 as num_traits::One>::one() + <Dual2_64 as num_traits::One>::one();   // base / second operand with non-zero derivative parts
     let (s1, c1) = <Dual2_64 as ComplexField>::sin_cos(x.clone());
     let (s2, c2) = DualNum::sin_cos(&x);
     assert!(same_dual2(&s1, &s2) && same_dual2(&c1, &c2));
@@ -666,7 +666,7 @@ pub fn c11_fwdtag_dual2_64_bina() {
 #[cfg_attr(kani, kani::stub(f64::atan2, tag::atan2))]
 pub fn c11_fwdtag_dual2_64_binb_slow() {
     let x: Dual2_64 = Dual2_64::new(0.5, 1.5, -0.25);
-    let y: Dual2_64 = <Dual2_64 as num_traits::One>::one() + <Dual2_64 as num_traits::One>::one();
+    let y: Dual2_64 = x.clone() + <Dual2_64 as num_traits::One>::one() + <Dual2_64 as num_traits::One>::one();   // base / second operand with non-zero derivative parts
     assert!(same_dual2(&<Dual2_64 as ComplexField>::powf(x.clone(), y.clone()), &DualNum::powd(&x, y.clone())));
     assert!(same_dual2(&<Dual2_64 as ComplexField>::powc(x.clone(), y.clone()), &DualNum::powd(&x, y.clone())));
     assert!(same_dual2(&<Dual2_64 as ComplexField>::hypot(x.clone(), y.clone()),
@@ -799,7 +799,7 @@ pub fn c11_fwdtag_dualvec64_u2() {
 #[cfg_attr(kani, kani::stub(f64::atan2, tag::atan2))]
 pub fn c11_fwdtag_dualvec64_bina() {
     let x: DualVec<f64, f64, Const<2>> = mk_dvec_c();
-    let y: DualVec<f64, f64, Const<2>> = <DualVec<f64, f64, Const<2>> as num_traits::One>::one() + <DualVec<f64, f64, Const<2>> as num_traits::One>::one();
+    let y: DualVec<f64, f64, Const<2>> = x.clone() + <DualVec<f64, f64, Const<2>> as num_traits::One>::one() + <DualVec<f64, f64, Const<2>> as num_traits::One>::one();   // base / second operand with non-zero derivative parts
     let (s1, c1) = <DualVec<f64, f64, Const<2>> as ComplexField>::sin_cos(x.clone());
     let (s2, c2) = DualNum::sin_cos(&x);
     assert!(same_dvec(&s1, &s2) && same_dvec(&c1, &c2));
@@ -834,7 +834,7 @@ pub fn c11_fwdtag_dualvec64_bina() {
 #[cfg_attr(kani, kani::stub(f64::atan2, tag::atan2))]
 pub fn c11_fwdtag_dualvec64_binb_slow() {
     let x: DualVec<f64, f64, Const<2>> = mk_dvec_c();
-    let y: DualVec<f64, f64, Const<2>> = <DualVec<f64, f64, Const<2>> as num_traits::One>::one() + <DualVec<f64, f64, Const<2>> as num_traits::One>::one();
+    let y: DualVec<f64, f64, Const<2>> = x.clone() + <DualVec<f64, f64, Const<2>> as num_traits::One>::one() + <DualVec<f64, f64, Const<2>> as num_traits::One>::one();   // base / second operand with non-zero derivative parts
     assert!(same_dvec(&<DualVec<f64, f64, Const<2>> as ComplexField>::powf(x.clone(), y.clone()), &DualNum::powd(&x, y.clone())));
     assert!(same_dvec(&<DualVec<f64, f64, Const<2>> as ComplexField>::powc(x.clone(), y.clone()), &DualNum::powd(&x, y.clone())));
     assert!(same_dvec(&<DualVec<f64, f64, Const<2>> as ComplexField>::hypot(x.clone(), y.clone()),
@@ -944,6 +944,22 @@ pub fn c11_fwdtag_dual2vec64_u2_slow() {
     cover!(true);
 }
 
+/// quick-tier companion of the Dual2Vec forwarding harnesses: logarithm to a base that is itself a
+/// dual number with non-zero derivative parts (the base's parts must enter the result)
+#[cfg_attr(kani, kani::proof)]
+#[cfg_attr(kani, kani::unwind(8))]
+#[cfg_attr(kani, kani::stub(f64::ln, tag::ln))]
+pub fn c11_fwdtag_dual2vec64_log_dual_base() {
+    let x: Dual2Vec<f64, f64, Const<1>> = mk_d2v();
+    let y: Dual2Vec<f64, f64, Const<1>> = Dual2Vec::new(
+        2.5,
+        Derivative::some(nalgebra::SMatrix::<f64, 1, 1>::new(-0.75)),
+        Derivative::some(nalgebra::SMatrix::<f64, 1, 1>::new(0.5)),
+    );
+    assert!(same_d2v(&<Dual2Vec<f64, f64, Const<1>> as ComplexField>::log(x.clone(), y.clone()), &(DualNum::ln(&x) / DualNum::ln(&y))));
+    cover!(true);
+}
+
 #[cfg_attr(kani, kani::proof)]
 #[cfg_attr(kani, kani::unwind(8))]
 #[cfg_attr(kani, kani::stub(f64::sin_cos, tag::sin_cos))]
@@ -967,7 +983,7 @@ pub fn c11_fwdtag_dual2vec64_u2_slow() {
 #[cfg_attr(kani, kani::stub(f64::atan2, tag::atan2))]
 pub fn c11_fwdtag_dual2vec64_bina_slow() {
     let x: Dual2Vec<f64, f64, Const<1>> = mk_d2v();
-    let y: Dual2Vec<f64, f64, Const<1>> = <Dual2Vec<f64, f64, Const<1>> as num_traits::One>::one() + <Dual2Vec<f64, f64, Const<1>> as num_traits::One>::one();
+    let y: Dual2Vec<f64, f64, Const<1>> = x.clone() + <Dual2Vec<f64, f64, Const<1>> as num_traits::One>::one() + <Dual2Vec<f64, f64, Const<1>> as num_traits::One>::one();   // base / second operand with non-zero derivative parts
     let (s1, c1) = <Dual2Vec<f64, f64, Const<1>> as ComplexField>::sin_cos(x.clone());
     let (s2, c2) = DualNum::sin_cos(&x);
     assert!(same_d2v(&s1, &s2) && same_d2v(&c1, &c2));
@@ -1002,7 +1018,7 @@ pub fn c11_fwdtag_dual2vec64_bina_slow() {
 #[cfg_attr(kani, kani::stub(f64::atan2, tag::atan2))]
 pub fn c11_fwdtag_dual2vec64_binb_slow() {
     let x: Dual2Vec<f64, f64, Const<1>> = mk_d2v();
-    let y: Dual2Vec<f64, f64, Const<1>> = <Dual2Vec<f64, f64, Const<1>> as num_traits::One>::one() + <Dual2Vec<f64, f64, Const<1>> as num_traits::One>::one();
+    let y: Dual2Vec<f64, f64, Const<1>> = x.clone() + <Dual2Vec<f64, f64, Const<1>> as num_traits::One>::one() + <Dual2Vec<f64, f64, Const<1>> as num_traits::One>::one();   // base / second operand with non-zero derivative parts
     assert!(same_d2v(&<Dual2Vec<f64, f64, Const<1>> as ComplexField>::powf(x.clone(), y.clone()), &DualNum::powd(&x, y.clone())));
     assert!(same_d2v(&<Dual2Vec<f64, f64, Const<1>> as ComplexField>::powc(x.clone(), y.clone()), &DualNum::powd(&x, y.clone())));
     assert!(same_d2v(&<Dual2Vec<f64, f64, Const<1>> as ComplexField>::hypot(x.clone(), y.clone()),
@@ -1079,6 +1095,7 @@ pub const LIST: &[(&str, fn())] = &[
     ("c11_fwdtag_dual2vec64_u0_slow", c11_fwdtag_dual2vec64_u0_slow),
     ("c11_fwdtag_dual2vec64_u1_slow", c11_fwdtag_dual2vec64_u1_slow),
     ("c11_fwdtag_dual2vec64_u2_slow", c11_fwdtag_dual2vec64_u2_slow),
+    ("c11_fwdtag_dual2vec64_log_dual_base", c11_fwdtag_dual2vec64_log_dual_base),
     ("c11_fwdtag_dual2vec64_bina_slow", c11_fwdtag_dual2vec64_bina_slow),
     ("c11_fwdtag_dual2vec64_binb_slow", c11_fwdtag_dual2vec64_binb_slow),
 
